@@ -112,9 +112,75 @@ moves every coordinate of `X` by `v`.
                                      velocity `1` (foot point: the WEST end, 3/2 away instead of 1/2); everything offset by `−5` (ridge
                                      `(0,0)–(1,0)`, query `3/2`): velocity `2` (EAST end).  In degrees: ridge `[350°,0]–[360°,0]`, query `5°`.
 
+* `C08_surface_lookup_spec`          `Surface::local_value` (spherical; surface.cc:153-230) returns the value that SOME stored triangle interpolates
+                                     at the query `p` or at `otherPoint p`, where that triangle accepts the point, and fails with "not in any
+                                     triangle" exactly when no stored triangle accepts either description (no other error; stored constants those
+                                     of `precompute`, every kd-node refers to a stored triangle).  The five stages (nearest node of `p`, nearest
+                                     node of `otherPoint p`, candidate lists, full scan) only decide WHICH accepting triangle is found.
+* `C08_surface_lon_offset`           depth surfaces under a common longitude offset, general case: triangle vertices and kd-nodes offset by `d`,
+                                     canonical query longitude `L` replaced by the canonical `L' = L + d + 2πj`, `L, L' ≠ 0`: same value / same
+                                     error, PROVIDED (i) every point a stored triangle accepts has its longitude in `[−2π, 2π]` before and after
+                                     the offset, (ii) `Surface.SingleValuedAt`: two stored triangles that accept a description `L + 2πk` of the
+                                     query interpolate the same value there (what a triangulation gives on common edges; across descriptions: a
+                                     surface drawn over more than `2π` does not carry two values at one place).  (ii) is needed because the
+                                     search ORDER is frame dependent: the nearest kd-node of `p` in one frame corresponds to the nearest node of
+                                     `otherPoint p'` in the other.  `C08_surface_lon_offset_of_reach`: the same with (i) replaced by
+                                     `SurfaceReach` (the accepted descriptions are among the two that are tried, in both frames; `L`, `L'` need not
+                                     be canonical).  `C08_surface_accepts_lon_bounds`: a point accepted by a clockwise triangle has its longitude
+                                     within the vertex longitudes enlarged by `(hi − lo)·10⁴ε·(c6 + 2)/c6` (so (i) follows from vertex ranges
+                                     with that margin).
+  `C08_surface_lon_offset_same_sign` `L' = L + d` with the same verdict of the sign test `lon < 0`: the whole search commutes with the offset
+                                     (same kd-tree walk, same order); no hypothesis on the surface beyond `pre = triangles.map precompute`.
+* `C08_surface_lon_offset_at_zero_false`
+                                     BOUNDARY CASE (same family as `C08_footprint_at_zero_missed`, no new defect).  "Vertex longitudes within
+                                     `[−2π, 2π]`" without `L ≠ 0` is not enough: at `L = 0` the description `+2π` is never tried.  Witness
+                                     (`π := 3`): one triangle `(5,0),(5,1),(6,0)`, query `(0,0)`: "not in any triangle"; everything offset by `−1`
+                                     (triangle `(4,0),(4,1),(5,0)`, query longitude `−1`, other description `5`): a value.  In an area feature
+                                     the polygon guard answers "outside" at such a point before the surface is asked.
+* `C08_dpfcp_alias_is_model`, `C08_dpfcp_alias_choice`
+                                     the slab / fault frame (utilities.cc:620-637): `distancePointFromCurvedPlanes` is, by `rfl`, the same
+                                     function with the alignment of the query longitude written as `dpfcpLonShift`, the on-trench test as
+                                     `DpfcpOnTrench` and the description of the query used for the side test as `dpfcpAlias cs pk.x`.  For a
+                                     query longitude at most `3π` from the trench longitude `pk.x` (canonical query, trench in `[−2π, 2π]`) the
+                                     chosen description is within `π` of `pk.x`; if one of `x, x ± 2π` is strictly within `π` it is the one
+                                     chosen; and the choice commutes with a common longitude offset (`pk.x + d`, `x' = x + d + 2πj`; no tie).
+
+* `C08_dpfcp_on_trench_lon_offset`   the test "the query is vertically below the trench" (utilities.cc:489 ff., `DpfcpOnTrench`) with the query
+                                     longitude ALIGNED to the foot point (`dpfcpLonShift`: one step of `2π`) gives the same verdict when the foot
+                                     longitude is offset by `d` and the query longitude becomes `L' = L + d + 2πj` (both at most `3π` from the foot
+                                     longitude, no tie), and the aligned 2-d point used by the side test of that branch follows the offset.
+                                     `C08_dpfcp_on_trench_alias_fires`: a query exactly above a foot point written `2π` away passes the test.
+  `C08_dpfcp_on_trench_test_not_alias_invariant`
+                                     HISTORY (documents the repaired defect).  Before upstream 'fix: on-trench test compared longitudes that can be
+                                     2 pi apart' (/repo commit 1a33e45f) the test was applied to the RAW natural coordinates: the query carries the
+                                     canonical longitude, the foot point the description the trench was WRITTEN with; for a trench written `2π`
+                                     away the norm is `2π`, the corner-case branch was skipped and the generic branch normalised
+                                     `closest − check` (Cartesian), a zero / rounding-noise vector.  Found while treating the alias choice of this
+                                     function; replayed on the library: subducting plate `[[190,-10],[195,0],[200,10]]`, dip point `[220,0]`, one
+                                     segment (450 km, 100 km thick, 45°), linear temperature 300–900 K over 100 km; query `lon −165, lat 0, depth
+                                     50 km` (a trench vertex): `444.155 K`, the same point given as `lon 195`: `567.036 K`; the same slab written
+                                     `[[-170,-10],[-165,0],[-160,10]]`: `512.132 K` for both; at depth 0 "outside" (1600 K) against 300 K.
+* `C08_bezier_closest_lon_offset_partial`
+                                     `Bezier.closestPoint true` (the spherical branch of `closest_point_on_curve_segment`) with every curve and
+                                     control point offset by `⟨d, 0⟩` and the query longitude replaced by `L' = L + d + 2πj`: same piece index, same
+                                     parametric fraction, same normal, same ABSOLUTE distance, foot point offset by `d`; errors and "nothing
+                                     accepted" agree.  Hypotheses: `HalfTurnLaws` (`sin (x + π) = −sin x`, `cos (x + π) = −cos x`: the iteration uses
+                                     `sin`, `cos` of HALF the longitude difference, always in products of two, so a change of the difference by
+                                     `2πj` gives every factor the same sign); `EstReach` for the first point of every piece (both query longitudes
+                                     at most `3π` from it — `initialEstimateSph` normalises by ONE step of `2π` — and no description of the query
+                                     exactly `π` away: tie).  `C08_bezier_est_reach_of_range`: canonical queries, curve within `[−2π, 2π]` in both
+                                     frames, no tie.  Partial: the SIGN of `distance` (`closestOf` multiplies the raw difference
+                                     `check_point − point_on_curve` with `derivative_point − point_on_curve`; already origin dependent in the
+                                     Cartesian case, `C08_bezier_closest_translation_full_false`; nothing inside the library reads it).
+  `C08_bezier_closest_lon_offset_full_false`
+                                     the statement including the sign is FALSE (toy bundle `π := 3`, `sin := (−1)^⌊x/3⌋`, `cos := 0`): curve along
+                                     latitude `1` from longitude `1` to `2`, query `(3/2, 2)`: distance `−1`; offset `d = 4`, query longitude
+                                     `−1/2`: distance `+1`.
+
 What is NOT proved
 * No statement about a whole `World.props3` under translation/rotation of a world: the theorems are per kernel (polygon, Bezier, ridge,
-  surface, plume/area guards).  `distance_point_from_curved_planes` (Dpfcp.lean) is not treated; note its on-trench branch computes
+  surface, plume/area guards).  Of `distance_point_from_curved_planes` (Dpfcp.lean) only the choice of the query's description is
+  treated (`C08_dpfcp_alias_choice`); note its on-trench branch computes
   `reference_p = (normal − closest_point)*1e2 + closest_point` (utilities.cc:557), again a direction minus a position, and scales a step by
   `max(‖closest_point‖, 1)` — both depend on where the origin is.
 * Rotation of the polygon test, of the Bezier construction (angles shift by `φ` modulo the `atan2` branch) and of the kd-tree (axis
@@ -127,6 +193,8 @@ import GwbVerif.Proofs.MotionRidge
 import GwbVerif.Proofs.MotionRot
 import GwbVerif.Proofs.MotionLon
 import GwbVerif.Proofs.MotionLonKernels
+import GwbVerif.Proofs.MotionLonSurface
+import GwbVerif.Proofs.MotionLonBezier
 import Mathlib.Analysis.SpecialFunctions.Trigonometric.Basic
 import GwbVerif.Model.World
 namespace Gwb
@@ -495,6 +563,185 @@ def C08_ridge_lon_offset_inrange_full : Prop :=
     @ridgeDistanceAndSpreading F (fieldScalar T) true (ridges.map (List.map (P2.shift ⟨d, 0⟩))) vels (nat.withLon L') subVel migr =
       @ridgeDistanceAndSpreading F (fieldScalar T) true ridges vels nat subVel migr
 
+/-! ### 3(e) common longitude offset, general case: depth surfaces; the slab / fault frame's choice of description -/
+
+/-- **C08** what `Surface::local_value` returns in a spherical world (surface.cc:153-230).  For a non-constant surface with at least one
+kd-node, stored constants those of `Tri.precompute` (`Surface.build` establishes this), every kd-node referring to a stored triangle:
+EITHER a value, and it is the value some reachable triangle interpolates at the query `p` or at `otherPoint p` (`L + 2π` for `L < 0`,
+`L − 2π` for `L ≥ 0`), that triangle accepting the point; OR the error "not in any triangle", and then no reachable triangle accepts
+`p` or `otherPoint p`.  The order of the five stages only decides which accepting triangle is found. -/
+theorem C08_surface_lookup_spec (s : Surface F) (hpre : @Surface.PreOk F (fieldScalar T) s) (hok : s.NodesOk)
+    (hc : s.constant = false) (hpos : 0 < s.nodes.size) (p : P2 F) :
+    (∃ v, @Surface.localValue F (fieldScalar T) s true p = .ok v ∧
+      (@Surface.Hit F (fieldScalar T) s p v ∨ @Surface.Hit F (fieldScalar T) s (@otherPoint F (fieldScalar T) p) v)) ∨
+    (@Surface.localValue F (fieldScalar T) s true p = .error .notInTriangle ∧
+      ∀ t, s.NodeTri t → ¬ @Tri.Accepts F (fieldScalar T) t p ∧ ¬ @Tri.Accepts F (fieldScalar T) t (@otherPoint F (fieldScalar T) p)) :=
+  @Surface.localValue_spherical_spec F (fieldScalar T) s hpre hok hc hpos p
+
+/-- **C08** depth surfaces under a common longitude offset, general case, in terms of reach.  Triangle vertices and kd-nodes offset by
+`d` (`s.shift T ⟨d, 0⟩`), the query `(L, lat)` replaced by `(L + d + 2πj, lat)`.  `SurfaceReach`: whenever a reachable triangle accepts a
+description `L + 2πk` of the query, that description is one of the two the lookup tries before the offset, and its offset copy is one of
+the two tried after it.  `Surface.SingleValuedAt`: any two reachable triangles accepting descriptions of the query interpolate the same
+value.  Then the lookup gives the same result, value or error.  (The search order differs between the frames, so without
+single-valuedness the two frames may find different accepting triangles.) -/
+theorem C08_surface_lon_offset_of_reach (s : Surface F) (hpre : @Surface.PreOk F (fieldScalar T) s) (hok : s.NodesOk) (d : F)
+    (p p' : P2 F) (j : ℤ) (hrel : p'.x = p.x + d + 2 * T.pi * j) (hy : p'.y = p.y)
+    (hreach : SurfaceReach T s p p' d) (hsv : Surface.SingleValuedAt T s p) :
+    @Surface.localValue F (fieldScalar T) (s.shift T ⟨d, 0⟩) true p' = @Surface.localValue F (fieldScalar T) s true p :=
+  Surface.localValue_lon_offset T s hpre hok d p p' j hrel hy hreach hsv
+
+/-- **C08** depth surfaces under a common longitude offset, general case.  Canonical query longitudes `L, L' = L + d + 2πj ∈ (−π, π]`,
+both non-zero (at `0` the description `+2π` is not tried: `C08_surface_lon_offset_at_zero_false`); every point a reachable triangle
+accepts has its longitude within `[−2π, 2π]`, before and after the offset (the surface is drawn within the documented range; see
+`C08_surface_accepts_lon_bounds` for the margin the tolerance of the triangle test needs); the surface has one value at the query.
+Same value, or the same error. -/
+theorem C08_surface_lon_offset (hπ : 0 < T.pi) (s : Surface F) (hpre : @Surface.PreOk F (fieldScalar T) s) (hok : s.NodesOk) (d : F)
+    (p p' : P2 F) (j : ℤ) (hlo : -T.pi < p.x) (hhi : p.x ≤ T.pi) (hne : p.x ≠ 0)
+    (hlo' : -T.pi < p'.x) (hhi' : p'.x ≤ T.pi) (hne' : p'.x ≠ 0)
+    (hrel : p'.x = p.x + d + 2 * T.pi * j) (hy : p'.y = p.y)
+    (hrange : ∀ t, s.NodeTri t → ∀ q : P2 F, @Tri.Accepts F (fieldScalar T) t q →
+      (-(2 * T.pi) ≤ q.x ∧ q.x ≤ 2 * T.pi) ∧ (-(2 * T.pi) ≤ q.x + d ∧ q.x + d ≤ 2 * T.pi))
+    (hsv : Surface.SingleValuedAt T s p) :
+    @Surface.localValue F (fieldScalar T) (s.shift T ⟨d, 0⟩) true p' = @Surface.localValue F (fieldScalar T) s true p :=
+  Surface.localValue_lon_offset T s hpre hok d p p' j hrel hy
+    (surfaceReach_of_range T hπ s d p p' j hlo hhi hne hlo' hhi' hne' hrel hy hrange) hsv
+
+/-- **C08** where the points accepted by a triangle can be: for a clockwise triangle (`c6 > 0`, the orientation for which the test
+accepts an area) with vertex longitudes in `[lo, hi]`, an accepted point has its longitude in `[lo − m, hi + m]`,
+`m = (hi − lo)·(c6·τ + 2τ)/c6`, `τ = 10⁴ε` (the absolute tolerance of `in_triangle` on the un-normalised barycentric weights) -/
+theorem C08_surface_accepts_lon_bounds (heps : 0 ≤ T.eps) (t : Tri F) (q : P2 F) (lo hi : F) (h6 : 0 < @Tri.c6 F (fieldScalar T) t)
+    (l0 : lo ≤ t.p0.x) (l1 : lo ≤ t.p1.x) (l2 : lo ≤ t.p2.x) (u0 : t.p0.x ≤ hi) (u1 : t.p1.x ≤ hi) (u2 : t.p2.x ≤ hi)
+    (ha : @Tri.Accepts F (fieldScalar T) t q) :
+    lo - (hi - lo) * ((@Tri.c6 F (fieldScalar T) t * (10000 * T.eps) + 10000 * T.eps + 10000 * T.eps) / @Tri.c6 F (fieldScalar T) t)
+      ≤ q.x ∧
+    q.x ≤ hi + (hi - lo) *
+      ((@Tri.c6 F (fieldScalar T) t * (10000 * T.eps) + 10000 * T.eps + 10000 * T.eps) / @Tri.c6 F (fieldScalar T) t) :=
+  Tri.accepts_x_bounds T heps t q lo hi h6 l0 l1 l2 u0 u1 u2 ha
+
+/-- **C08** depth surfaces when the offset does not re-normalise the query longitude (`L' = L + d`, same verdict of the sign test
+`lon < 0` that selects `otherPoint`): the whole search commutes with the offset, nothing is assumed about the triangles -/
+theorem C08_surface_lon_offset_same_sign (d : F) (s : Surface F) (hs : @Surface.PreOk F (fieldScalar T) s) (p : P2 F)
+    (hsign : p.x + d < 0 ↔ p.x < 0) :
+    @Surface.localValue F (fieldScalar T) (s.shift T ⟨d, 0⟩) true (P2.shift ⟨d, 0⟩ p) =
+      @Surface.localValue F (fieldScalar T) s true p :=
+  Surface.localValue_lon_shift T d s hs p hsign
+
+/-- the statement of `C08_surface_lon_offset` with "vertex longitudes within `[−2π, 2π]`" as the only range hypothesis and without
+`L, L' ≠ 0` — FALSE at `L = 0`, see `C08_surface_lon_offset_at_zero_false` -/
+def C08_surface_lon_offset_vertexrange_full : Prop :=
+  0 < T.pi → ∀ (s : Surface F) (d : F) (p p' : P2 F) (j : ℤ),
+    @Surface.PreOk F (fieldScalar T) s → s.NodesOk →
+    -T.pi < p.x → p.x ≤ T.pi → -T.pi < p'.x → p'.x ≤ T.pi → p'.x = p.x + d + 2 * T.pi * j → p'.y = p.y →
+    (∀ t, s.NodeTri t → ∀ v ∈ [t.p0, t.p1, t.p2],
+      (-(2 * T.pi) ≤ v.x ∧ v.x ≤ 2 * T.pi) ∧ (-(2 * T.pi) ≤ v.x + d ∧ v.x + d ≤ 2 * T.pi)) →
+    Surface.SingleValuedAt T s p →
+    @Surface.localValue F (fieldScalar T) (s.shift T ⟨d, 0⟩) true p' = @Surface.localValue F (fieldScalar T) s true p
+
+/-- **C08** the slab / fault frame: `distance_point_from_curved_planes` is — definitionally — the function in which the query longitude is
+aligned to the foot point by `dpfcpLonShift`, the on-trench test is `DpfcpOnTrench` (on the aligned point), and the description of the
+query's surface point used for the side test of the generic branch (`check_point_surface_2d_temp`, utilities.cc:620-637) is
+`dpfcpAlias cs pk.x`: the one of `x`, `x + 2π`, `x − 2π` whose longitude is closest to the trench point `pk` next to the foot point
+(ties: `x`) -/
+theorem C08_dpfcp_alias_is_model (coord : CoordSys F) (checkPoint nat : P3 F) (reference : P2 F) (pointList : List (P2 F))
+    (lengths : List (List F)) (angles : List (List (P2 F))) (startRadius : F) (onlyPositive : Bool) (bz : Bezier F) :
+    @distancePointFromCurvedPlanes F (fieldScalar T) coord checkPoint nat reference pointList lengths angles startRadius onlyPositive bz =
+      @distancePointFromCurvedPlanesA F (fieldScalar T) coord checkPoint nat reference pointList lengths angles startRadius onlyPositive
+        bz :=
+  rfl
+
+/-- **C08** the choice of the query's description in the slab / fault frame.  `cs = (x, lat)` the query's surface point, `m = pk.x` the
+trench longitude.
+(1) if `x` is at most `3π` from `m` (true for a canonical `x` and `m ∈ [−2π, 2π]`: `C08_dpfcp_reach_of_range`), the chosen description is
+within `π` of `m`, has the query's latitude and is one of `x`, `x + 2π`, `x − 2π`;
+(2) if one of these three is strictly within `π` of `m`, it is the one chosen;
+(3) the choice commutes with a common longitude offset, also across the `±π` meridian: trench longitude `m + d`, query longitude
+`x' = x + d + 2πj` (both at most `3π` from the trench longitude; no tie: no description of the query exactly `π` from `m`). -/
+theorem C08_dpfcp_alias_choice (hπ : 0 < T.pi) (cs : P2 F) (m : F) :
+    (|cs.x - m| ≤ 3 * T.pi →
+      |(@dpfcpAlias F (fieldScalar T) cs m).x - m| ≤ T.pi ∧ (@dpfcpAlias F (fieldScalar T) cs m).y = cs.y ∧
+      ∃ k : ℤ, (k = 0 ∨ k = 1 ∨ k = -1) ∧ (@dpfcpAlias F (fieldScalar T) cs m).x = cs.x + 2 * T.pi * k) ∧
+    (∀ k : ℤ, (k = 0 ∨ k = 1 ∨ k = -1) → |cs.x + 2 * T.pi * k - m| < T.pi →
+      @dpfcpAlias F (fieldScalar T) cs m = ⟨cs.x + 2 * T.pi * k, cs.y⟩) ∧
+    (∀ (d : F) (cs' : P2 F) (j : ℤ), cs'.x = cs.x + d + 2 * T.pi * j → cs'.y = cs.y →
+      |cs.x - m| ≤ 3 * T.pi → |cs'.x - (m + d)| ≤ 3 * T.pi → (∀ k : ℤ, |cs.x + 2 * T.pi * k - m| ≠ T.pi) →
+      @dpfcpAlias F (fieldScalar T) cs' (m + d) = P2.shift ⟨d, 0⟩ (@dpfcpAlias F (fieldScalar T) cs m)) :=
+  ⟨dpfcpAlias_spec T cs m, fun k hk h => dpfcpAlias_within T hπ cs m k hk h,
+    fun d cs' j hrel hy hr hr' hnt => dpfcpAlias_lon_offset T hπ d cs cs' m j hrel hy hr hr' hnt⟩
+
+/-- **C08** the on-trench test of `distance_point_from_curved_planes` with the query longitude aligned to the foot point (the model since
+upstream 'fix: on-trench test compared longitudes that can be 2 pi apart'; `dpfcpLonShift`, `DpfcpOnTrench` as they occur in
+`C08_dpfcp_alias_is_model`) under a common longitude offset.  Query `(r, L, lat)`, foot point `(r0, m, lat0)` on the trench curve; the
+curve offset by `d` (foot longitude `m + d`), the query longitude `L' = L + d + 2πj`; both query longitudes at most `3π` from the foot
+longitude (canonical query, trench within `[−2π, 2π]`), no description of the query exactly `π` from the foot longitude.  Then the
+aligned longitude follows the offset, hence the test gives the same verdict and the aligned 2-d point of the side test is the offset
+copy. -/
+theorem C08_dpfcp_on_trench_lon_offset (hπ : 0 < T.pi) (d r L L' lat r0 m lat0 : F) (j : ℤ) (hrel : L' = L + d + 2 * T.pi * j)
+    (hr : |L - m| ≤ 3 * T.pi) (hr' : |L' - (m + d)| ≤ 3 * T.pi) (hnt : ∀ k : ℤ, |L + 2 * T.pi * k - m| ≠ T.pi) :
+    (L' + @dpfcpLonShift F (fieldScalar T) L' (m + d) = L + @dpfcpLonShift F (fieldScalar T) L m + d) ∧
+    (@DpfcpOnTrench F (fieldScalar T) ⟨r, L' + @dpfcpLonShift F (fieldScalar T) L' (m + d), lat⟩ ⟨r0, m + d, lat0⟩ ↔
+      @DpfcpOnTrench F (fieldScalar T) ⟨r, L + @dpfcpLonShift F (fieldScalar T) L m, lat⟩ ⟨r0, m, lat0⟩) ∧
+    ((⟨L' + @dpfcpLonShift F (fieldScalar T) L' (m + d), lat⟩ : P2 F) =
+      P2.shift ⟨d, 0⟩ ⟨L + @dpfcpLonShift F (fieldScalar T) L m, lat⟩) := by
+  have h := dpfcp_aligned_lon_offset T hπ d L L' m j hrel hr hr' hnt
+  refine ⟨h, dpfcpOnTrench_aligned_lon_offset T hπ d r L L' lat r0 m lat0 j hrel hr hr' hnt, ?_⟩
+  simp only [P2.shift, h, add_zero]
+
+/-- **C08** with the alignment, a query exactly above a foot point that is written `2π` away passes the on-trench test (`sqrt 0 = 0`) -/
+theorem C08_dpfcp_on_trench_alias_fires (hπ : 0 < T.pi) (hs0 : T.sqrt 0 = 0) (r L lat : F) :
+    @DpfcpOnTrench F (fieldScalar T) ⟨r, L + @dpfcpLonShift F (fieldScalar T) L (L + 2 * T.pi), lat⟩ ⟨r, L + 2 * T.pi, lat⟩ :=
+  dpfcpOnTrench_aligned_alias T hπ hs0 r L lat
+
+/-- **C08** (HISTORY: the defect repaired by upstream 'fix: on-trench test compared longitudes that can be 2 pi apart', /repo commit
+1a33e45f) the on-trench test applied to the RAW natural coordinates depends on the DESCRIPTION of the longitude: with `sqrt 0 = 0`,
+`sqrt (x·x) = |x|`, `π ≥ 1` a query's surface point `(r, L, lat)` passes the test against the foot point `(r, L, lat)` and fails it
+against `(r, L + 2π, lat)`, the same point of the sphere (`C08_longitude_alias_same_point`).  The foot point carries the description the
+trench was written with, the query the canonical one; in the failing case the generic branch normalised the Cartesian difference of two
+equal points. -/
+theorem C08_dpfcp_on_trench_test_not_alias_invariant (hs0 : T.sqrt 0 = 0) (hs : ∀ x : F, T.sqrt (x * x) = |x|) (hπ : 1 ≤ T.pi)
+    (r L lat : F) :
+    @DpfcpOnTrench F (fieldScalar T) ⟨r, L, lat⟩ ⟨r, L, lat⟩ ∧ ¬ @DpfcpOnTrench F (fieldScalar T) ⟨r, L, lat⟩ ⟨r, L + 2 * T.pi, lat⟩ :=
+  dpfcpOnTrench_alias T hs0 hs hπ r L lat
+
+/-- the full statement for the spherical branch of the closest point: the result follows the offset in every member, the signed
+distance included.  FALSE (`C08_bezier_closest_lon_offset_full_false`): the sign is taken from `(derivative_point −
+point_on_curve)·(check_point − point_on_curve)` with the raw longitude difference, which changes by `2πj` (and the first factor is a
+vector minus a position, see `C08_bezier_closest_translation_full_false`). -/
+def C08_bezier_closest_lon_offset_full : Prop :=
+  0 < T.pi → HalfTurnLaws T → ∀ (d : F) (bz : Bezier F) (cp cp' : P2 F) (j : ℤ),
+    cp'.x = cp.x + d + 2 * T.pi * j → cp'.y = cp.y →
+    (∀ (i : Nat) (p1 : P2 F), bz.points[i]? = some p1 → EstReach T d cp cp' p1) →
+    @Bezier.closestPoint F (fieldScalar T) (bz.shift ⟨d, 0⟩) true cp' =
+      Except.map (Option.map (ClosestPoint.shift ⟨d, 0⟩)) (@Bezier.closestPoint F (fieldScalar T) bz true cp)
+
+/-- **C08** (partial: the sign of `distance` is missing) the closest point on the Bezier trench curve, spherical branch, under a common
+longitude offset in the general case.  Curve points and control points offset by `⟨d, 0⟩`, the query `(L, lat)` replaced by
+`(L + d + 2πj, lat)`.  The whole damped Newton iteration with its line search produces the same iterates: same piece, same parametric
+fraction, same normal, same absolute distance, foot point offset by `d`; errors (`newton`) and the "nothing accepted" result agree.
+`HalfTurnLaws`: `sin (x + π) = −sin x`, `cos (x + π) = −cos x`.  `EstReach T d cp cp' p1` for the first point `p1` of every piece: both query
+longitudes at most `3π` from `p1` (resp. `p1 + d`), and no description `L + 2πk` exactly `π` away from `p1` (otherwise the normalised
+longitude difference of `initialEstimateSph` may be `π` in one frame and `−π` in the other and the iteration starts elsewhere). -/
+theorem C08_bezier_closest_lon_offset_partial (hπ : 0 < T.pi) (hH : HalfTurnLaws T) (d : F) (bz : Bezier F) (cp cp' : P2 F) (j : ℤ)
+    (hrel : cp'.x = cp.x + d + 2 * T.pi * j) (hy : cp'.y = cp.y)
+    (hest : ∀ (i : Nat) (p1 : P2 F), bz.points[i]? = some p1 → EstReach T d cp cp' p1) :
+    Except.map (Option.map ClosestPoint.unsign) (@Bezier.closestPoint F (fieldScalar T) (bz.shift ⟨d, 0⟩) true cp') =
+      Except.map (Option.map (fun c => (c.shift ⟨d, 0⟩).unsign)) (@Bezier.closestPoint F (fieldScalar T) bz true cp) :=
+  Bezier.closestPoint_lon_offset T hπ hH d bz cp cp' j hrel hy hest
+
+/-- **C08** `EstReach` from ranges: canonical query longitudes `L, L' ∈ (−π, π]`, the point's longitude within `[−2π, 2π]` before and after
+the offset, no description of the query exactly `π` away -/
+theorem C08_bezier_est_reach_of_range (d : F) (cp cp' p1 : P2 F) (hlo : -T.pi < cp.x) (hhi : cp.x ≤ T.pi) (hlo' : -T.pi < cp'.x)
+    (hhi' : cp'.x ≤ T.pi) (h1 : -(2 * T.pi) ≤ p1.x ∧ p1.x ≤ 2 * T.pi) (h2 : -(2 * T.pi) ≤ p1.x + d ∧ p1.x + d ≤ 2 * T.pi)
+    (hnt : ∀ k : ℤ, |cp.x + 2 * T.pi * k - p1.x| ≠ T.pi) : EstReach T d cp cp' p1 :=
+  estReach_of_range T d cp cp' p1 hlo hhi hlo' hhi' h1 h2 hnt
+
+/-- **C08** `HalfTurnLaws` implies the `2π`-periodicity used elsewhere -/
+theorem C08_halfTurn_periodLaws (hH : HalfTurnLaws T) : PeriodLaws T := hH.periodLaws
+
+/-- **C08** a canonical query longitude and a trench longitude within `[−2π, 2π]` are at most `3π` apart -/
+theorem C08_dpfcp_reach_of_range (x m : F) (hlo : -T.pi < x) (hhi : x ≤ T.pi) (h1 : -(2 * T.pi) ≤ m) (h2 : m ≤ 2 * T.pi) :
+    |x - m| ≤ 3 * T.pi :=
+  dpfcp_reach_of_range T x m hlo hhi h1 h2
+
 end field
 
 /-! ### negative results (witnesses over `ℚ`, `ε = 2⁻⁵²`) -/
@@ -585,6 +832,44 @@ theorem C08_ridge_lon_offset_inrange_full_false : ¬ C08_ridge_lon_offset_inrang
   have hs : r' = r := by simpa using this
   rw [hs, hv] at hv'
   exact absurd hv' (by norm_num)
+
+/-- **C08** (boundary case, same family as `C08_footprint_at_zero_missed`) with vertex longitudes merely within `[−2π, 2π]` and the query
+longitude `0` allowed, the depth-surface lookup is NOT invariant (`π := 3`): one triangle `(5,0),(5,1),(6,0)` with values `10, 20, 30`,
+query `(0, 0)`: the descriptions tried are `0` and `−2π`, the vertex `(2π, 0)` is not found: "not in any triangle".  Everything offset
+by `d = −1`: triangle `(4,0),(4,1),(5,0)`, canonical query longitude `−1`, other description `−1 + 2π = 5`: a value is returned.
+In degrees: triangle `[300,0],[300,60],[360,0]`, query longitude `0`; offset `−60`. -/
+theorem C08_surface_lon_offset_at_zero_false : ¬ C08_surface_lon_offset_vertexrange_full c08Transc := by
+  intro h
+  have e : c08Transc.pi = 3 := rfl
+  have := h (by rw [e]; norm_num) c08Surface5 (-1) ⟨0, 0⟩ ⟨-1, 0⟩ 0 (Surface.shift_preOk c08Transc _ _)
+    (Surface.shift_nodesOk c08Transc _ _ c08Surface_nodesOk)
+    (by rw [e]; norm_num) (by rw [e]; norm_num) (by rw [e]; norm_num) (by rw [e]; norm_num) (by rw [e]; norm_num) rfl
+    c08Surface5_vertices c08Surface5_singleValued
+  obtain ⟨v, hv⟩ := c08Surface5_offset
+  rw [hv, c08Surface5_at_zero] at this
+  cases this
+
+/-- **C08** (same defect as `C08_bezier_closest_translation_full_false`, spherical branch) the SIGN of `ClosestPointOnCurve::distance` does
+not follow a common longitude offset.  Bundle `c08Half` (`π := 3`, `sin := (−1)^⌊x/3⌋`, `cos := 0`, `sqrt := id`: the half-turn laws hold,
+the Newton iteration stops at its start value).  Curve along the latitude `1` from longitude `1` to `2`, query `(3/2, 2)`: foot point
+`(3/2, 1)`, distance `−1`.  Everything offset by `d = 4` (curve `[5, 6]`, canonical query longitude `3/2 + 4 − 2π = −1/2`): foot point
+`(11/2, 1)`, same fraction `1/2`, distance `+1`: the factor `check_point − point_on_curve` has the longitude component `−2π` instead
+of `0`. -/
+theorem C08_bezier_closest_lon_offset_full_false : ¬ C08_bezier_closest_lon_offset_full c08Half := by
+  intro h
+  have e : c08Half.pi = 3 := rfl
+  have := h (by rw [e]; norm_num) c08Half_halfTurnLaws 4 (c08HLine 1) ⟨3 / 2, 2⟩ ⟨-1 / 2, 2⟩ (-1) (by rw [e]; norm_num) rfl
+    c08HLine_estReach
+  rw [c08HLine_shift] at this
+  obtain ⟨c1, h1, d1⟩ := c08HLine_frame1
+  obtain ⟨c2, h2, d2⟩ := c08HLine_frame2
+  rw [h1, h2] at this
+  simp only [Except.map, Option.map_some, Except.ok.injEq, Option.some.injEq] at this
+  have hd : c2.distance = (ClosestPoint.shift ⟨4, 0⟩ c1).distance := by rw [this]
+  rw [d2] at hd
+  have : (ClosestPoint.shift ⟨4, 0⟩ c1).distance = c1.distance := rfl
+  rw [this, d1] at hd
+  norm_num at hd
 
 /-! ### the hypotheses are satisfiable -/
 section examples
@@ -800,6 +1085,106 @@ example (depth : ℚ) :
         have : (12 : ℚ) * k = -5 := by linarith
         exact_mod_cast this
       omega
+
+/-- `C08_surface_lookup_spec`, `C08_surface_lon_offset`, `C08_surface_lon_offset_of_reach`: the one-triangle surface `c08Surface`
+(`(1,0),(1,1),(2,0)`, `π := 3`), query `(5/4, 1/4)`, offset `d = 7/2` (the triangle is carried to longitudes `[9/2, 11/2]`, across the
+meridian `π`), re-normalised query longitude `5/4 + 7/2 − 2π = −5/4` (`j = −1`): all hypotheses hold -/
+example :
+    (0 : ℚ) < c08Transc.pi ∧ @Surface.PreOk ℚ (fieldScalar c08Transc) c08Surface ∧ c08Surface.NodesOk ∧
+    c08Surface.constant = false ∧ 0 < c08Surface.nodes.size ∧
+    (-c08Transc.pi < (5 / 4 : ℚ) ∧ (5 / 4 : ℚ) ≤ c08Transc.pi ∧ (5 / 4 : ℚ) ≠ 0) ∧
+    (-c08Transc.pi < (-5 / 4 : ℚ) ∧ (-5 / 4 : ℚ) ≤ c08Transc.pi ∧ (-5 / 4 : ℚ) ≠ 0) ∧
+    ((-5 / 4 : ℚ) = 5 / 4 + 7 / 2 + 2 * c08Transc.pi * ((-1 : ℤ) : ℚ)) ∧
+    (∀ t, c08Surface.NodeTri t → ∀ q : P2 ℚ, @Tri.Accepts ℚ (fieldScalar c08Transc) t q →
+      (-(2 * c08Transc.pi) ≤ q.x ∧ q.x ≤ 2 * c08Transc.pi) ∧
+      (-(2 * c08Transc.pi) ≤ q.x + 7 / 2 ∧ q.x + 7 / 2 ≤ 2 * c08Transc.pi)) ∧
+    Surface.SingleValuedAt c08Transc c08Surface ⟨5 / 4, 1 / 4⟩ ∧
+    SurfaceReach c08Transc c08Surface ⟨5 / 4, 1 / 4⟩ ⟨-5 / 4, 1 / 4⟩ (7 / 2) := by
+  have e : c08Transc.pi = 3 := rfl
+  have hrel : (-5 / 4 : ℚ) = 5 / 4 + 7 / 2 + 2 * c08Transc.pi * ((-1 : ℤ) : ℚ) := by rw [e]; norm_num
+  refine ⟨by rw [e]; norm_num, c08Surface_preOk, c08Surface_nodesOk, rfl, by simp [c08Surface], by rw [e]; norm_num,
+    by rw [e]; norm_num, hrel, c08Surface_range_example, c08Surface_singleValued _, ?_⟩
+  exact surfaceReach_of_range c08Transc (by rw [e]; norm_num) c08Surface (7 / 2) ⟨5 / 4, 1 / 4⟩ ⟨-5 / 4, 1 / 4⟩ (-1)
+    (by rw [e]; norm_num) (by rw [e]; norm_num) (by norm_num) (by rw [e]; norm_num) (by rw [e]; norm_num) (by norm_num) hrel rfl
+    c08Surface_range_example
+
+/-- `C08_surface_accepts_lon_bounds`: the triangle `c08Tri` is clockwise (`c6 = 1`), `ε = 2⁻⁵² ≥ 0` -/
+example : (0 : ℚ) ≤ c08Transc.eps ∧ 0 < @Tri.c6 ℚ (fieldScalar c08Transc) c08Tri := by
+  constructor
+  · show (0 : ℚ) ≤ 1 / 2 ^ 52
+    norm_num
+  · rw [Tri.c6_field]
+    unfold crossP P3.xy c08Tri
+    norm_num
+
+/-- `C08_surface_lon_offset_same_sign`: longitude `5/4` offset by `1/2` keeps the sign -/
+example : ((5 / 4 : ℚ) + 1 / 2 < 0 ↔ (5 / 4 : ℚ) < 0) := by norm_num
+
+/-- `C08_dpfcp_alias_choice`: `π := 3`, query longitude `5/2`, trench longitude `1`, offset `d = 4` (trench carried to `5`, across the
+meridian), re-normalised query longitude `5/2 + 4 − 2π = 1/2` (`j = −1`): both within `3π`, and no description `5/2 + 6k` is `3` away
+from `1` -/
+example :
+    (0 : ℚ) < c08Transc.pi ∧ |(5 / 2 : ℚ) - 1| ≤ 3 * c08Transc.pi ∧ |(1 / 2 : ℚ) - (1 + 4)| ≤ 3 * c08Transc.pi ∧
+    ((1 / 2 : ℚ) = 5 / 2 + 4 + 2 * c08Transc.pi * ((-1 : ℤ) : ℚ)) ∧
+    (∀ k : ℤ, |(5 / 2 : ℚ) + 2 * c08Transc.pi * k - 1| ≠ c08Transc.pi) ∧
+    |(5 / 2 : ℚ) + 2 * c08Transc.pi * ((0 : ℤ) : ℚ) - 1| < c08Transc.pi := by
+  have e : c08Transc.pi = 3 := rfl
+  rw [e]
+  refine ⟨by norm_num, by norm_num [abs_of_pos], by norm_num [abs_of_neg], by norm_num, ?_, by norm_num [abs_of_pos]⟩
+  intro k h
+  rcases (abs_eq (by norm_num : (0 : ℚ) ≤ 3)).mp h with h | h
+  · have : (4 * k : ℤ) = 1 := by
+      have : (4 : ℚ) * k = 1 := by linarith
+      exact_mod_cast this
+    omega
+  · have : (4 * k : ℤ) = -3 := by
+      have : (4 : ℚ) * k = -3 := by linarith
+      exact_mod_cast this
+    omega
+
+/-- `C08_dpfcp_on_trench_test_not_alias_invariant`: the real square root and `π` satisfy the hypotheses -/
+example : c08Real.sqrt 0 = 0 ∧ (∀ x : ℝ, c08Real.sqrt (x * x) = |x|) ∧ 1 ≤ c08Real.pi :=
+  ⟨Real.sqrt_zero, Real.sqrt_mul_self_eq_abs, by
+    show (1 : ℝ) ≤ Real.pi
+    linarith [Real.two_le_pi]⟩
+
+/-- `C08_bezier_closest_lon_offset_partial`: the real `sin`, `cos`, `π` satisfy the half-turn laws -/
+theorem c08Real_halfTurnLaws : HalfTurnLaws c08Real :=
+  ⟨fun x => Real.sin_add_pi x, fun x => Real.cos_add_pi x⟩
+
+/-- `C08_bezier_closest_lon_offset_partial`, `C08_bezier_est_reach_of_range`: over `ℝ` (only `2 ≤ π ≤ 4` is used), a curve point at
+longitude `−1`, query longitude `1/2`, offset `d = 4` (point carried to `3`), re-normalised query longitude `1/2 + 4 − 2π` (`j = −1`):
+canonical in both frames, the point within `[−2π, 2π]` in both frames, both query longitudes within `3π` of it.  (No description
+`1/2 + 2πk` is exactly `π` away from `−1`: that would make `π` rational.) -/
+example :
+    (0 : ℝ) < c08Real.pi ∧ HalfTurnLaws c08Real ∧
+    (-c08Real.pi < (1 / 2 : ℝ) ∧ (1 / 2 : ℝ) ≤ c08Real.pi) ∧
+    (-c08Real.pi < (1 / 2 : ℝ) + 4 + 2 * c08Real.pi * ((-1 : ℤ) : ℝ) ∧ (1 / 2 : ℝ) + 4 + 2 * c08Real.pi * ((-1 : ℤ) : ℝ) ≤ c08Real.pi) ∧
+    (-(2 * c08Real.pi) ≤ (-1 : ℝ) ∧ (-1 : ℝ) ≤ 2 * c08Real.pi) ∧ (-(2 * c08Real.pi) ≤ (-1 : ℝ) + 4 ∧ (-1 : ℝ) + 4 ≤ 2 * c08Real.pi) ∧
+    |(1 / 2 : ℝ) - -1| ≤ 3 * c08Real.pi ∧ |(1 / 2 : ℝ) + 4 + 2 * c08Real.pi * ((-1 : ℤ) : ℝ) - (-1 + 4)| ≤ 3 * c08Real.pi := by
+  have e : c08Real.pi = Real.pi := rfl
+  have h2 : (2 : ℝ) ≤ Real.pi := Real.two_le_pi
+  have h4 : Real.pi ≤ 4 := Real.pi_le_four
+  rw [e]
+  refine ⟨by linarith, c08Real_halfTurnLaws, ⟨by linarith, by linarith⟩, ⟨by push_cast; linarith, by push_cast; linarith⟩,
+    ⟨by linarith, by linarith⟩, ⟨by linarith, by linarith⟩, ?_, ?_⟩
+  · rw [abs_le]; constructor <;> linarith
+  · rw [abs_le]; constructor <;> push_cast <;> linarith
+
+/-- `C08_bezier_closest_lon_offset_partial` over `ℚ`: the toy bundle `c08Half` (`π := 3`, `sin := (−1)^⌊x/3⌋`, `cos := 0`) satisfies the
+half-turn laws, and the curve `c08HLine 1` (longitudes `[1, 2]`) with the query longitude `3/2`, offset `d = 4`, re-normalised query
+longitude `−1/2 = 3/2 + 4 − 2π` (`j = −1`) satisfies `EstReach` at every curve point -/
+example :
+    (0 : ℚ) < c08Half.pi ∧ HalfTurnLaws c08Half ∧ ((-1 / 2 : ℚ) = 3 / 2 + 4 + 2 * c08Half.pi * ((-1 : ℤ) : ℚ)) ∧
+    (∀ (i : Nat) (p1 : P2 ℚ), (c08HLine 1).points[i]? = some p1 → EstReach c08Half 4 ⟨3 / 2, 2⟩ ⟨-1 / 2, 2⟩ p1) := by
+  have e : c08Half.pi = 3 := rfl
+  exact ⟨by rw [e]; norm_num, c08Half_halfTurnLaws, by rw [e]; norm_num, c08HLine_estReach⟩
+
+/-- `C08_dpfcp_on_trench_lon_offset`: `π := 3`, query longitude `5/2`, foot longitude `1`, offset `d = 4`, re-normalised query longitude
+`1/2` (`j = −1`): the numbers of the example for `C08_dpfcp_alias_choice`.  `C08_dpfcp_on_trench_alias_fires`: `sqrt := id` over `ℚ`,
+`Real.sqrt` over `ℝ`. -/
+example : (0 : ℚ) < c08Transc.pi ∧ c08Transc.sqrt 0 = 0 ∧ c08Real.sqrt 0 = 0 ∧ (0 : ℝ) < c08Real.pi :=
+  ⟨by show (0 : ℚ) < 3; norm_num, rfl, Real.sqrt_zero, Real.pi_pos⟩
 
 end examples
 
